@@ -169,6 +169,13 @@ def counter(xs, val):
     return out
 
 
+def _hull(nums):
+    """smallest Num whose 4-err interval covers the 4-err intervals of all the given ones"""
+    lo = min(x.v - 4 * x.e for x in nums)
+    hi = max(x.v + 4 * x.e for x in nums)
+    return Num((lo + hi) / 2, (hi - lo) / 8)
+
+
 class SupertrendRef:
     """Stepper: bands HL2 +- m*ATR that only ratchet in the trend direction; flip when the close breaks the
     previous band. Where a comparison is closer than the error bounds both outcomes are admissible; the reference keeps EVERY
@@ -270,7 +277,16 @@ class SupertrendRef:
         scored.sort(key=lambda t: t[0])
         _, _, d, up, lo, shown = scored[0]
         self.pu, self.pl, self.pd = up, lo, d
-        keep = [(u_, l_, d_) for _, fits, d_, u_, l_, _ in scored if fits][:8]
+        keep = [(u_, l_, d_) for _, fits, d_, u_, l_, _ in scored if fits]
+        if len(keep) > 4:
+            # many internal states fit what the implementation shows (coarse output, fine helpers): over-approximate them by ONE state
+            # per direction whose bands are the hull of the fitting ones - sound (never excludes an admissible state) and bounded
+            merged = []
+            for dd in (1, -1):
+                grp = [(u_, l_) for u_, l_, d_ in keep if d_ == dd]
+                if grp:
+                    merged.append((_hull([g[0] for g in grp]), _hull([g[1] for g in grp]), dd))
+            keep = merged
         self.states = keep or [(up, lo, d)]
         return {"trend": shown, "direction": d, "long": shown if d == 1 else None, "short": shown if d == -1 else None}, len(cands)
 
